@@ -39,6 +39,7 @@ class Case:
         self.K = int(rng.choice([2, self.N]))
         self.schema = gen_schema(rng, self)
         self.slots = list(schema_slots(self.schema))
+        self.inst_history = []  # (comps, full_shape) of earlier `set` steps: re-used to overlap under the same indices
 
     def add_dyn(self, arr):
         self.dyn.append(np.asarray(arr))
@@ -284,8 +285,14 @@ def gen_fresh(case):
         comps = random_path(case)
         return {"op": "set", "path": comps, "leaf": gen_leaf(case, ()), "via": str(rng.choice(["C", "entry", "extend"]))}
     if r < 0.55:
-        pattern, shape = case.slots[int(rng.integers(len(case.slots)))]
-        comps, full = inst_pattern(case, pattern, shape)
+        if case.inst_history and rng.random() < 0.3:
+            comps, full = case.inst_history[int(rng.integers(len(case.inst_history)))]
+            comps = [list(c) for c in comps]
+        else:
+            pattern, shape = case.slots[int(rng.integers(len(case.slots)))]
+            comps, full = inst_pattern(case, pattern, shape)
+            if any(c[0] != "s" for c in comps):
+                case.inst_history.append(([list(c) for c in comps], full))
         has_vec = any(c[0] == "v" for c in comps)
         leaf = gen_leaf(case, full, allow_flag=True)
         via = str(rng.choice(["C", "C", "entry", "extend"]))
